@@ -32,6 +32,7 @@ type Outcome struct {
 	Fatal    string // "fatal error: ..." line, if any
 	Exit     int
 	TimedOut bool
+	Unstable bool // RunN: the runs did not all behave the same (schedule-dependent program)
 }
 
 var pkgDecl = regexp.MustCompile(`(?m)^package main\b`)
@@ -39,6 +40,12 @@ var mainDecl = regexp.MustCompile(`(?m)^func main\(\)`)
 
 // Run compiles and runs the sources. dir is a scratch directory that Run may fill and the caller removes.
 func Run(goBin, dir string, sources []string, parallel int) ([]Outcome, error) {
+	return RunN(goBin, dir, sources, parallel, 1)
+}
+
+// RunN is like Run but executes every program runs times with different
+// GOMAXPROCS values and marks the programs whose behaviour varied.
+func RunN(goBin, dir string, sources []string, parallel, runs int) ([]Outcome, error) {
 	outs := make([]Outcome, len(sources))
 	if err := os.MkdirAll(dir, 0o755); err != nil {
 		return nil, err
@@ -134,7 +141,13 @@ func Run(goBin, dir string, sources []string, parallel int) ([]Outcome, error) {
 		go func(i int) {
 			defer wg.Done()
 			defer func() { <-sem }()
-			outs[i] = runOne(bin, i, pos[i], len(order))
+			outs[i] = runOne(bin, i, pos[i], len(order), 2)
+			for k := 1; k < runs; k++ {
+				o := runOne(bin, i, pos[i], len(order), []int{1, 4, 16, 3}[k%4])
+				if o.Out != outs[i].Out || o.Panic != outs[i].Panic || o.Fatal != outs[i].Fatal || o.TimedOut != outs[i].TimedOut {
+					outs[i].Unstable = true
+				}
+			}
 		}(i)
 	}
 	wg.Wait()
@@ -148,14 +161,14 @@ func truncate(s string, n int) string {
 	return s
 }
 
-func runOne(bin string, i, k, n int) Outcome {
+func runOne(bin string, i, k, n, procs int) Outcome {
 	ctx, cancel := context.WithTimeout(context.Background(), 10*time.Second)
 	defer cancel()
 	cmd := exec.CommandContext(ctx, bin, fmt.Sprint(i))
 	var buf bytes.Buffer
 	cmd.Stderr = &buf
 	cmd.Stdout = &buf
-	cmd.Env = append(os.Environ(), "GOTRACEBACK=single", "GOMAXPROCS=2")
+	cmd.Env = append(os.Environ(), "GOTRACEBACK=single", fmt.Sprintf("GOMAXPROCS=%d", procs))
 	err := cmd.Run()
 	o := Outcome{Built: true}
 	if ctx.Err() != nil {
